@@ -45,7 +45,6 @@ import (
 	goparser "go/parser"
 	"go/scanner"
 	"go/token"
-	"io"
 	"os"
 	"path/filepath"
 	"regexp"
@@ -134,13 +133,11 @@ func run(trace, full bool, f func(fset *token.FileSet) (any, bool, error)) (o ou
 }
 
 type cbLog struct {
-	toks  []token.Token
-	bad   bool // a nesting level outside [0, maxNestLev+1]
-	calls int
+	toks []token.Token
+	bad  bool // a nesting level outside [0, maxNestLev+1]
 }
 
 func (l *cbLog) cb(tok token.Token, nest int) {
-	l.calls++
 	l.toks = append(l.toks, tok)
 	if nest < 0 || nest > 100001 {
 		l.bad = true
@@ -247,10 +244,14 @@ func checkCallbackTokens(log *cbLog, stream []stok) string {
 
 var reLineDirective = regexp.MustCompile(`(//|/\*)line `)
 
-func driftClass(src []byte, frk, std outcome, stream []stok, desc string) string {
+// frk, std are the full outcomes (whole dumps).
+func driftClass(src []byte, frk, std outcome, stream []stok) string {
 	if strings.Contains(std.errs, "can only use ... with final parameter") || strings.Contains(std.errs, "invalid use of ...") ||
-		strings.Contains(desc, "ast.Ellipsis{") && strings.Contains(desc, "ast.BadExpr{") {
-		// (the message itself may have been discarded as a same-line follow-on error while the tree was still rewritten)
+		strings.Count(frk.dump, "ast.Ellipsis{") > strings.Count(std.dump, "ast.Ellipsis{") ||
+		strings.Contains(frk.dump, "ast.Ellipsis{") && strings.Count(frk.dump, "ast.BadExpr{") < strings.Count(std.dump, "ast.BadExpr{") {
+		// (the message itself may have been discarded as a same-line follow-on error while the type was still
+		// rewritten from Ellipsis to a fresh BadExpr per parameter — which also splits `a, b ...T` style
+		// groups that shared one type into separate fields)
 		return "drift-ddd"
 	}
 	for i, t := range stream {
@@ -335,8 +336,8 @@ func judge(src []byte, mode uint, ps parsers, extraEOF int, complete func(o outc
 	}
 	d := ps.std(false, nil)
 	if a.key() != d.key() {
-		desc := describe(ps.forkPlain(true, nil), ps.std(true, nil))
-		return impl, "VIOL:" + driftClass(src, a, d, stream, desc) + " " + desc
+		af, df := ps.forkPlain(true, nil), ps.std(true, nil)
+		return impl, "VIOL:" + driftClass(src, af, df, stream) + " " + describe(af, df)
 	}
 	return impl, "ok"
 }
@@ -989,8 +990,12 @@ func gen(w *kit.Out, r *kit.Rand, tier string) {
 	rb := r.Fork()
 	for _, s := range boundary {
 		if thorough {
-			for m := uint(0); m < 128; m++ {
+			// the table is the same for every derived seed: 8 fixed modes + 16 drawn ones per source
+			for _, m := range []uint{0, 4, 20, 36, 64, 1, 2, 127} {
 				w.Op("file %d %s", m, kit.Hex([]byte(s)))
+			}
+			for i := 0; i < 16; i++ {
+				w.Op("file %d %s", uint(rb.Intn(128)), kit.Hex([]byte(s)))
 			}
 		} else {
 			for _, m := range []uint{0, 4, 20, 36, 64, 1, 2, 127, uint(rb.Intn(128))} {
@@ -1018,7 +1023,7 @@ func gen(w *kit.Out, r *kit.Rand, tier string) {
 	}
 
 	// 2. the repository's own sources, unmodified, then mutated
-	nFiles, nMut, nSynth, nExpr, nJunk := 60, 500, 200, 300, 150
+	nFiles, nMut, nSynth, nExpr, nJunk := 80, 700, 250, 400, 200
 	if thorough {
 		nFiles, nMut, nSynth, nExpr, nJunk = 700, 7000, 1500, 3000, 1500
 	}
@@ -1121,7 +1126,6 @@ func gen(w *kit.Out, r *kit.Rand, tier string) {
 			w.Op("file %d %s", pickMode(rj, len(s)), kit.Hex(s))
 		}
 	}
-	_ = io.Discard
 }
 
 func main() {
